@@ -2,6 +2,7 @@ package nfs40sim
 
 import (
 	"fmt"
+	"os"
 	"runtime/debug"
 	"testing"
 	"testing/synctest"
@@ -35,6 +36,9 @@ func runScripted(t *testing.T, prof *profile, nClients int, body func(w *world))
 	rec := simkit.NewRecorder(t, prof.property, "nfs40_regress_"+t.Name(), "scripted regression of a shrunk generated failure, run through the same world, reference model and oracles as the generated cases")
 	if failure == "" {
 		rec.Case(w.script, true, "regression")
+		if os.Getenv("VERIF_SHOW_SCRIPT") != "" {
+			t.Logf("script:\n%s", w.script1())
+		}
 	}
 	if failure != "" {
 		t.Fatalf("VERIF-VIOLATION property=%s: %s\nscript:\n%s", prof.property, failure, w.script1())
@@ -114,5 +118,156 @@ func TestC20NFS40RegressSharedLockOwnerMerge(t *testing.T) {
 		lo := c.lockOwner[0]
 		w.do(c, &opSpec{Kind: kLock, FH: a1.fh, LockOwner: lo.key, LockSeq: nextSeq(lo.seq), Stateid: a1.locks[lo.key], LockType: 2, Offset: 2, Length: 2})
 		w.do(c, &opSpec{Kind: kLocku, FH: a1.fh, LockOwner: lo.key, LockSeq: nextSeq(lo.seq), Stateid: a1.locks[lo.key], LockType: 2, Offset: 0, Length: 6})
+	})
+}
+
+// flightOf returns the in-flight request of a script step.
+func (w *world) flightOf(op *opSpec) *flight {
+	for _, fl := range w.flights {
+		if fl.op == op {
+			return fl
+		}
+	}
+	panic("harness: scripted request is not in flight")
+}
+
+func retxOf(orig *opSpec) *opSpec {
+	op := *orig
+	op.Out, op.Park, op.N = "", "", 0
+	op.Fault, op.FaultSt = "", ""
+	op.Retx = orig.N
+	op.Note = "retransmission"
+	return &op
+}
+
+// Three identical retransmissions arrive while the original OPEN is
+// parked inside VirtualOpenChild: all of them wait behind the
+// open-owner's transaction, and when the original completes every one
+// of them must return with the original's reply (a wake-up that reaches
+// only one waiter leaves the others blocked for ever).
+func TestC19NFS40RegressDuplicatesBehindOpenParkedBefore(t *testing.T) {
+	duplicatesBehindParkedOpen(t, parkOpenBefore)
+}
+
+func TestC19NFS40RegressDuplicatesBehindOpenParkedAfter(t *testing.T) {
+	duplicatesBehindParkedOpen(t, parkOpenAfter)
+}
+
+func duplicatesBehindParkedOpen(t *testing.T, park string) {
+	runScripted(t, profC19, 1, func(w *world) {
+		c := w.clients[0]
+		w.register(c)
+		o := c.owners[0]
+		orig := &opSpec{Kind: kOpen, ClientID: c.confirmed, FH: "root", Owner: o.key, Seq: 7, Name: "a", Access: 3, How: "unchecked", Park: park}
+		w.do(c, orig)
+		for i := 0; i < 3; i++ {
+			w.issue(c, retxOf(orig))
+		}
+		if len(w.flights) != 4 {
+			panic(fmt.Sprintf("harness: %d requests in flight, expected the original and three duplicates", len(w.flights)))
+		}
+		w.release(w.flightOf(orig))
+		if len(w.flights) != 0 {
+			panic("harness: requests still in flight after the release")
+		}
+		w.issue(c, retxOf(orig))
+	})
+}
+
+// The open-owner and lock-owner seqids start just below 2^32: the
+// successor of 2^32-1 is 1 (nextSeqID skips 0), a request carrying 0
+// there is out of order, and retransmissions keep working across the
+// wrap-around.
+func TestC19NFS40RegressSeqidWrapAround(t *testing.T) {
+	runScripted(t, profC19, 1, func(w *world) {
+		c := w.clients[0]
+		w.register(c)
+		o, lo := c.owners[0], c.lockOwner[0]
+		o.seq, lo.seq = 0xfffffffd, 0xfffffffe
+		a := w.openConfirmed(c, 0, "a", 3) // OPEN 2^32-2, OPEN_CONFIRM 2^32-1
+		if o.seq != 0xffffffff {
+			panic("harness: scripted seqids are off")
+		}
+		// Seqid 0 is not the successor of 2^32-1.
+		w.do(c, &opSpec{Kind: kOpenDowngrade, FH: a.fh, Owner: o.key, Seq: 0, Stateid: a.sid, Access: 3, Note: "seq_zero_after_max"})
+		down := &opSpec{Kind: kOpenDowngrade, FH: a.fh, Owner: o.key, Seq: 1, Stateid: a.sid, Access: 1}
+		w.do(c, down)
+		w.issue(c, retxOf(down))
+		w.lockNew(c, 0, a, 0, 1, 0, 2) // open-owner seqid 2, lock-owner seqid 2^32-1
+		if lo.seq != 0xffffffff {
+			panic("harness: scripted lock seqids are off")
+		}
+		w.do(c, &opSpec{Kind: kLocku, FH: a.fh, LockOwner: lo.key, LockSeq: 0, Stateid: a.locks[lo.key], LockType: 1, Offset: 0, Length: 1, Note: "seq_zero_after_max"})
+		unlock := &opSpec{Kind: kLocku, FH: a.fh, LockOwner: lo.key, LockSeq: 1, Stateid: a.locks[lo.key], LockType: 1, Offset: 0, Length: 1}
+		w.do(c, unlock)
+		w.issue(c, retxOf(unlock))
+		w.do(c, &opSpec{Kind: kClose, FH: a.fh, Owner: o.key, Seq: nextSeq(o.seq), Stateid: a.sid})
+	})
+}
+
+// Two clients use the same open-owner and lock-owner byte strings: they
+// are different owners, so their locks conflict with each other, LOCKT
+// of one of them is not blind to the other's locks, and CLOSE by one of
+// them leaves the other's bytes alone (read back by the table scan).
+func TestC20NFS40RegressSameOwnerBytesTwoClients(t *testing.T) {
+	runScripted(t, profC20, 2, func(w *world) {
+		c0, c1 := w.clients[0], w.clients[1]
+		w.register(c0)
+		w.register(c1)
+		if c0.lockOwner[0].key != c1.lockOwner[0].key || c0.owners[0].key != c1.owners[0].key {
+			panic("harness: the clients are meant to use identical owner strings")
+		}
+		a0 := w.openConfirmed(c0, 0, "a", 3)
+		a1 := w.openConfirmed(c1, 0, "a", 3)
+		w.lockNew(c0, 0, a0, 0, 2, 0, 4)
+		w.lockNew(c1, 0, a1, 0, 2, 2, 6) // conflicts with client 0's bytes 2..3
+		w.lockNew(c1, 0, a1, 0, 2, 4, 8)
+		w.do(c1, &opSpec{Kind: kLockt, FH: a1.fh, LockCID: c1.confirmed, LockOwner: c1.lockOwner[0].key, LockType: 2, Offset: 0, Length: 8})
+		w.do(c0, &opSpec{Kind: kLockt, FH: a0.fh, LockCID: c0.confirmed, LockOwner: c0.lockOwner[0].key, LockType: 2, Offset: 0, Length: 4})
+		o := c0.owners[0]
+		w.do(c0, &opSpec{Kind: kClose, FH: a0.fh, Owner: o.key, Seq: nextSeq(o.seq), Stateid: a0.sid})
+	})
+}
+
+// CLOSE of an open on which two lock-owners hold bytes frees the bytes
+// of both, and nothing of a third owner that locked through another
+// open; the table scan after the CLOSE reads every unit back.
+func TestC20NFS40RegressCloseWithTwoLockOwners(t *testing.T) {
+	runScripted(t, profC20, 2, func(w *world) {
+		c0, c1 := w.clients[0], w.clients[1]
+		w.register(c0)
+		w.register(c1)
+		a0 := w.openConfirmed(c0, 0, "a", 3)
+		a1 := w.openConfirmed(c1, 0, "a", 3)
+		w.lockNew(c0, 0, a0, 0, 2, 0, 3)
+		w.lockNew(c0, 0, a0, 1, 1, 5, nUnits)
+		w.lockNew(c1, 0, a1, 1, 1, 8, 12)
+		o := c0.owners[0]
+		w.do(c0, &opSpec{Kind: kClose, FH: a0.fh, Owner: o.key, Seq: nextSeq(o.seq), Stateid: a0.sid})
+	})
+}
+
+// Failing file system calls below OPEN, READ, WRITE and SETATTR: the
+// failed request leaves no open behind, releases the share it borrowed,
+// and its cached error reply is what a retransmission gets.
+func TestC18NFS40RegressFaultPaths(t *testing.T) {
+	runScripted(t, profC18, 1, func(w *world) {
+		c := w.clients[0]
+		w.register(c)
+		o := c.owners[0]
+		for _, f := range []string{faultDirBefore, faultAlloc, faultDirAfter} {
+			op := &opSpec{Kind: kOpen, ClientID: c.confirmed, FH: "root", Owner: o.key, Seq: nextSeq(o.seq), Name: "a", Access: 3, How: "unchecked", Fault: f, FaultSt: "io"}
+			w.do(c, op)
+			w.issue(c, retxOf(op))
+		}
+		a := w.openConfirmed(c, 0, "a", 3) // created by the dir_after attempt, opened now
+		for _, k := range []string{kRead, kWrite, kSetattr} {
+			w.do(c, &opSpec{Kind: k, FH: a.fh, Stateid: a.sid, Data: "x", Count: 1, Size: 2, Fault: faultIO, FaultSt: "access"})
+			w.do(c, &opSpec{Kind: k, FH: a.fh, Stateid: sidAnonymous, Data: "x", Count: 1, Size: 2, Fault: faultIO, FaultSt: "rofs"})
+		}
+		w.do(c, &opSpec{Kind: kRead, FH: a.fh, Stateid: sidAnonymous, Count: 1, Fault: faultOpenSelf, FaultSt: "nxio"})
+		w.do(c, &opSpec{Kind: kOpen, ClientID: c.confirmed, FH: "root", Owner: o.key, Seq: nextSeq(o.seq), Name: "a", Access: 1, How: "nocreate", Fault: faultOpenSelf, FaultSt: "io"})
+		w.do(c, &opSpec{Kind: kOpen, ClientID: c.confirmed, FH: a.fh, Owner: o.key, Seq: nextSeq(o.seq), Name: "a", Access: 1, How: "nocreate", Claim: "previous", Stateid: sidAnonymous, Fault: faultOpenSelf, FaultSt: "io"})
+		w.do(c, &opSpec{Kind: kClose, FH: a.fh, Owner: o.key, Seq: nextSeq(o.seq), Stateid: a.sid})
 	})
 }
